@@ -23,7 +23,9 @@ KIND_CODE = {"stddev": 1, "quantile": 2, "min": 3, "max": 4, "covariance": 5, "c
 PROBS = (0.0, 0.25, 0.5, 0.75, 1.0, 0.1)
 DYADIC_P = (0.0, 0.25, 0.5, 0.75, 1.0)
 TOL = 1e-9
-OFFSETS = (10 ** 6, 10 ** 8, 1700000000, 2 ** 40, -10 ** 9)
+OFFSETS = (10 ** 6, 10 ** 8, 1700000000, 2 ** 40, -10 ** 9, 2 ** 30)
+UNIT_POW2 = (-40, -30, -20, -10, 10, 20, 40)
+UNIT_DEC = (1e-5, 1e-9, 1e6)
 WPOWS = (-60, -40, -20, 20, 40)
 OFFSET_KINDS = ("stddev", "quantile", "covariance", "corrcoef")
 EPOCH0 = 1577836800  # 2020-01-01T00:00:00, datetime facts are EPOCH0 + small second offsets
@@ -79,6 +81,19 @@ def gen_case(rng, kind):
         offset = rng.choice(OFFSETS)
         unit = 1024 if abs(offset) >= 2 ** 38 else 1
         fact = [[float(offset) + x * unit for x in row] for row in fact]
+    # fact UNIT stream: the same facts in another unit - every column times an exact power of two 2^-40..2^40 (everything
+    # stays exact: the statistic must scale exactly, correlation must be bit-identical) or a decimal unit 1e-5 / 1e-9 / 1e6
+    # (the rounded products ARE the input; not for correlation, where a constant non-dyadic column has a rounding-noise
+    # variance and NumPy's entry - mathematically undefined, not compared - differs from the exact model's); the factor
+    # is global or chosen per column.  Not combined with the offset stream (the tolerance is relative to the unit).
+    funit = None
+    if ftype == "float" and not compact and offset == 0 and rng.random() < 0.3:
+        pool = [2.0 ** e for e in UNIT_POW2] * 2 + ([] if kind == "corrcoef" else list(UNIT_DEC))
+        if ncol > 1 and rng.random() < 0.5:
+            funit = [rng.choice(pool) for _ in range(ncol)]
+        else:
+            funit = [rng.choice(pool)] * ncol
+        fact = [[x * funit[k] for k, x in enumerate(row)] for row in fact]
     pm = rng.choice([0.0, 0.1, 0.25, 0.5])
     fvalid = [[rng.random() >= pm for _ in range(ncol)] for _ in range(N)]
     if kind in ("covariance", "corrcoef") and rng.random() < 0.3:
@@ -125,7 +140,7 @@ def gen_case(rng, kind):
             w[r] = w[r] * 2.0 ** wpow
     p = rng.choice(PROBS + (round(rng.random(), 3), rng.random()))
     case = {"kind": kind, "N": N, "exts": exts, "dims": dims, "dimdtype": rng.choice(["int64", "int64", "int8", "uint8", "int32"]),
-            "K": K, "ftype": ftype, "fform": fform, "offset": offset, "fact": fact, "fvalid": fvalid, "fhidden": hidden,
+            "K": K, "ftype": ftype, "fform": fform, "offset": offset, "funit": funit, "fact": fact, "fvalid": fvalid, "fhidden": hidden,
             "wkind": wkind, "w": w, "wvalid": wvalid, "whidden": whidden, "wpow": wpow, "wpow_kind": wpow_kind,
             "ign": rng.random() < 0.5, "p": p,
             "sentinel": rng.choice([0, 0, -7, 3]) if ftype != "float" else rng.choice([0, 0.0, -7.0, 2.5])}
@@ -344,11 +359,48 @@ def huge_plan(rng, tier):
     return plan
 
 
+def is_pow2(x):
+    return x > 0 and math.frexp(x)[0] == 0.5
+
+
+def unit_factors(case):
+    """per output entry of ONE cell (column k, or matrix entry (i, j)): the factor by which the reported number (variance
+    for stddev) scales when column k is multiplied by funit[k]"""
+    u = case.get("funit")
+    ncol = 1 if case["K"] is None else case["K"]
+    if not u:
+        u = [1.0] * ncol
+    u = [Fraction(x) for x in u]
+    kind = case["kind"]
+    if kind == "stddev":
+        return [x * x for x in u]
+    if kind == "covariance":
+        return [a * b for a in u for b in u]
+    if kind == "corrcoef":
+        return [Fraction(1)] * (ncol * ncol)
+    return u
+
+
+def case_tol(case, coq=False):
+    """1e-9 relative; for facts in a small unit the absolute part of `|a-b| <= tol*(1+|b|)` is scaled to the (largest)
+    unit of the result so that the comparison stays meaningful"""
+    u = case.get("funit")
+    if not u:
+        return Fraction(1, 10 ** 9)
+    if case["kind"] == "corrcoef":
+        f = max(Fraction(x) for x in u) ** 4 if coq else Fraction(1)     # Coq compares q^2 c_ii c_jj with c_ij^2
+    else:
+        f = max(unit_factors(case))
+    return Fraction(1, 10 ** 9) * min(Fraction(1), f)
+
+
 def exact_expected(case):
     """is the double result of the real code the exact rational result (dyadic inputs)?"""
     k = case["kind"]
     if k in ("min", "max"):
         return True
+    if case.get("funit") and not all(is_pow2(x) for x in case["funit"]):
+        return False
     if k == "quantile" and case["p"] in DYADIC_P:
         if case["wkind"] == "none":
             return True
@@ -532,6 +584,26 @@ def run_impl(catii, np, case):
                             break
                 except Exception as e:
                     res["scale"] = "raised with rescaled weights: %s" % e
+            # metamorphic: the same facts in the unit 1 (power-of-two units only: exact) must give exactly the same report
+            # up to the unit - bit-identical correlation, covariance x f_i f_j, variance x f^2, quantile / min / max x f
+            u = case.get("funit")
+            res["unit"] = None
+            if u and all(is_pow2(x) for x in u) and res["nan"] is not None:
+                c0 = dict(case)
+                c0["funit"] = None
+                c0["fact"] = [[x / u[k] for k, x in enumerate(row)] for row in case["fact"]]
+                c0["forms"] = {k: v for k, v in (case.get("forms") or {}).items() if k != "fact_dtype"}
+                try:
+                    r0, _ = abstract(np, c0, "nan", call(catii, np, c0, "nan"))
+                    fac = unit_factors(case)
+                    for i, (a, b) in enumerate(zip(res["nan"], r0)):
+                        f = fac[i % len(fac)]
+                        if a[0] != b[0] or (a[0] == "val" and a[1] != b[1] * f):
+                            res["unit"] = ("output cell %d: %r for the facts in units %r, %r for the same facts in unit 1 (expected factor %s)"
+                                           % (i, a, u, b, f))
+                            break
+                except Exception as e:
+                    res["unit"] = "raised for the same facts in unit 1: %s" % e
     return res
 
 
@@ -557,7 +629,7 @@ def judge_case(case, res):
             bad.append(("%s:shape" % kind, "%d output cells, expected %d" % (len(got), len(exp))))
             return bad
         for i, (e, g) in enumerate(zip(exp, got)):
-            why = orc.judge(e, g, TOL)
+            why = orc.judge(e, g, case_tol(case))
             if why:
                 sig = "%s:value" % kind
                 if e[0] == "miss":
@@ -582,6 +654,8 @@ def judge_case(case, res):
         bad.append(("%s:sentinel" % kind, res["fmt_errs"][0]))
     if not bad and res["scale"]:
         bad.append(("wquantile:not-scale-invariant", res["scale"]))
+    if not bad and res.get("unit"):
+        bad.append(("%s:not-unit-invariant" % kind, res["unit"]))
     return bad
 
 
@@ -658,7 +732,7 @@ def case_literal(np, case, res):
         wts = "None"
     else:
         wts = "(Some [" + "; ".join(core.optlit(case["w"][r] if case["wvalid"][r] else None, q) for r in range(N)) + "])"
-    tol = Fraction(0) if exact_expected(case) else Fraction(1, 10 ** 9)
+    tol = Fraction(0) if exact_expected(case) else case_tol(case, coq=True)
     outs = ["[" + "; ".join(ocell(c) for c in res[fmt]) + "]" for fmt in ("nan", "pair")]
     return "(%d, %s, %s, %s, %s, %s, %s, %s, %s, %s, %s)" % (
         KIND_CODE[case["kind"]], core.zlist(case["exts"]), cats, cols, wts, core.boollit(case["ign"]),
@@ -717,6 +791,11 @@ def run(ctx):
                 "arrays in every integer dtype and layout, interacting_shape (signed AND unsigned NumPy scalars, F25) and probability as NumPy "
                 "scalars, integer-dtype weight arrays and int lists for every weighted statistic incl. covariance (F26); NOT generated "
                 "(outside the quantifier): interacting_shape as a list, (N,1) weights, (N,1) facts for min/max, datetime64 units other than [s]; "
+                "about 30 % of the float-fact cases of every statistic are fact-UNIT cases: every column times a power of two 2^-40..2^40 or a "
+                "decimal unit 1e-5 / 1e-9 / 1e6 (decimal not for correlation: rounding-noise variance of constant non-dyadic columns), "
+                "globally or per column; compared with the model on the scaled input (absolute part of the tolerance scaled to the "
+                "unit) AND, for power-of-two units, as a metamorphic relation on the implementation (same facts in unit 1: bit-identical "
+                "correlation, covariance x f_i f_j, variance x f^2, quantile/min/max x f); offsets now include 2^30; "
                 "plus a 'huge' stream judged by the model-free oracle ONLY (no Coq literal; counted in huge_cases_oracle_only): per round "
                 "(1 quick, 3 thorough) nine cases with N in 65 537..150 000 rows (more than any 65536-row block), 0-2 dimensions of "
                 "2-4 categories, 2-5 missing rows of which one lies in the first 65536-row block and one beyond it: min/max under "
@@ -751,6 +830,7 @@ def run(ctx):
     offs = {}
     wsc = {}
     formc = {}
+    units = {}
     for i in range(n_inputs):
         for kind in KINDS:
             case = gen_case(ctx.rng, kind)
@@ -762,6 +842,11 @@ def run(ctx):
                 feats[f] = feats.get(f, 0) + 1
             for tg in form_tags(case):
                 formc[tg] = formc.get(tg, 0) + 1
+            if case.get("funit"):
+                fu = case["funit"]
+                uk = "%s %s %s" % (kind, "per-column" if len(set(fu)) > 1 else "global",
+                                   "2^%d" % round(math.log2(min(fu))) if all(is_pow2(x) for x in fu) else "decimal %g" % min(fu))
+                units[uk] = units.get(uk, 0) + 1
             if case.get("wpow"):
                 wk = "%s weights x 2^%d (%s)" % (kind, case["wpow"], case["wpow_kind"])
                 wsc[wk] = wsc.get(wk, 0) + 1
@@ -799,6 +884,8 @@ def run(ctx):
     ctx.coverage["weight_scale_cases"] = dict(sorted(wsc.items()))
     ctx.coverage["weight_scale_total"] = sum(wsc.values())
     ctx.coverage["forms"] = dict(sorted(formc.items()))
+    ctx.coverage["fact_unit_cases"] = dict(sorted(units.items()))
+    ctx.coverage["fact_unit_total"] = sum(units.values())
     ctx.samples = [{k: c[k] for k in ("kind", "exts", "dims", "fact", "fvalid", "wkind", "w", "wvalid", "ign", "p")} for c in cases[:3]]
 
     res = core.run_cases("c18", "From Catii Require Import Cube.XStats Cube.XStatsCheck.", lits, "case_t", "check_case",
